@@ -196,7 +196,8 @@ Qed.
     lib/PyRes.v), in particular the column-wise reading of the (n,1) x (1,m) broadcasts (NumPy raises or stretches a length-1
     axis where the [.._shapes] predicate is false) and the object layer (which arrays the attributes hold).  Still with the
     correspondence only: the float kernels (np.sin, np.log10, the 0/0 -> nan that np.where then replaces), binary64 rounding,
-    and the Signal-level callers (smooth_fa_spectrum property, setters). *)
+    (the Signal-level callers -- smooth_fa_spectrum property, gen_smooth_fa_spectrum, setters -- have their own tie at the end
+    of this file: gen/Gen_c07_obj.v). *)
 From EQ Require Import lib.PyVal lib.NpHelpers lib.PyRes gen.Gen_c07 proofs.P_gen_c07.
 
 (** calc_smooth_fa_spectrum: raises IndexError on an empty frequency array, otherwise the model with the window
@@ -353,3 +354,54 @@ Proof.
     unfold drop_zero_a, drop_zero_f. numR. rewrite (proj2 (Reqb_true 0 0) eq_refl). reflexivity.
   - eexists. split; [exact (proj1 (C07_smooth_fa_is_source_R 5 [0; 1; 2] [7; 1; 3] [1]))|]. apply P_C07.smooth_length.
 Qed.
+
+(** ** Source-text tie for the object layer (translator/py2coq_objlayer.py -> gen/Gen_c07_obj.v, proofs in P_gen_c07_obj)
+
+    Every run re-translates eqsig/single.py: Signal.gen_smooth_fa_spectrum, generate_smooth_fa_spectrum, the lazy getter
+    smooth_fa_spectrum, the getters and setters smooth_fa_freqs / smooth_fa_frequencies and
+    set_smooth_fa_frequecies_by_range by symbolic execution over the record [obj] (o_fa_freqs / o_fa_spectrum = what the
+    properties fa_freqs / fa_spectrum return: property C06; _smooth_fa_freqs, _smooth_fa_spectrum, _smooth_freq_range,
+    _cached_smooth_fa).  SM = calc_smooth_fa_spectrum(fa_frequencies, fa_spectrum, smooth_fa_frequencies, band) is a parameter
+    (its tie: C07_*_is_source above); LOG10 / LOGSPACE = np.log10 / np.logspace(., ., n, base=10).  PROVED for every [NumOps]
+    instance and ALL inputs: the targets are the argument if given (stored first) else the stored ones; SM gets (fa_freqs,
+    fa_spectrum, targets, band) in this order; the result is stored in _smooth_fa_spectrum and the flag set; the lazy getter
+    computes with band = 40 (the default of generate_smooth_fa_spectrum) only when the flag is clear; both setters store the
+    new targets and clear the flag without touching the stored spectrum; by-range builds the targets from the two entries of
+    log10(limits), remembers the limits and clears the flag.  A changed operand / order / keyword / default / flag changes
+    the generated text and breaks one of these theorems; renamed temporaries give the same text.
+    NOT covered: SM, np.log10, np.logspace themselves, `np.array(freqs, dtype=float)` read as the same list (a copy; a
+    non-float input would be converted), the deprecated smooth_freq_range / smooth_freq_points accessors. *)
+From EQ Require Import gen.Gen_c07_obj proofs.P_gen_c07_obj.
+
+Theorem C07_object_smoothing_is_source : forall (T : Type) (ops : NumOps T) (SM : list T -> list T -> list T -> T -> list T)
+    (targets : option (list T)) (band : T) (st : @Gen_c07_obj.obj T),
+  let fs := match targets with Some f => f | None => o_smooth_fa_freqs st end in
+  gen_gen_smooth_fa_spectrum SM targets band st
+  = PyRes.PyOk (mk_obj (o_fa_freqs st) (o_fa_spectrum st) fs (SM (o_fa_freqs st) (o_fa_spectrum st) fs band) (o_smooth_freq_range st) true) /\
+  gen_generate_smooth_fa_spectrum SM band st = gen_gen_smooth_fa_spectrum SM None band st.
+Proof. intros. split; [apply P_gen_c07_obj.gen_gen_smooth_eq | now rewrite P_gen_c07_obj.gen_generate_smooth_eq, P_gen_c07_obj.gen_gen_smooth_eq]. Qed.
+Theorem C07_lazy_smooth_spectrum_is_source : forall (T : Type) (ops : NumOps T) (SM : list T -> list T -> list T -> T -> list T)
+    (st : @Gen_c07_obj.obj T),
+  gen_smooth_fa_spectrum_get SM st
+  = let st' := if o_cached_smooth_fa st then st
+               else mk_obj (o_fa_freqs st) (o_fa_spectrum st) (o_smooth_fa_freqs st)
+                      (SM (o_fa_freqs st) (o_fa_spectrum st) (o_smooth_fa_freqs st) (nofZ 40)) (o_smooth_freq_range st) true in
+    PyRes.PyOk (st', o_smooth_fa_spectrum st').
+Proof. intros. apply P_gen_c07_obj.gen_smooth_get_eq. Qed.
+Theorem C07_smoothing_frequency_accessors_are_source : forall (T : Type) (ops : NumOps T) (fs : list T) (st : @Gen_c07_obj.obj T),
+  let st' := mk_obj (o_fa_freqs st) (o_fa_spectrum st) fs (o_smooth_fa_spectrum st) (o_smooth_freq_range st) false in
+  gen_set_smooth_fa_freqs fs st = PyRes.PyOk st' /\ gen_set_smooth_fa_frequencies fs st = PyRes.PyOk st' /\
+  gen_smooth_fa_freqs_get st = PyRes.PyOk (st, o_smooth_fa_freqs st) /\ gen_smooth_fa_frequencies_get st = PyRes.PyOk (st, o_smooth_fa_freqs st).
+Proof. intros. split; [apply P_gen_c07_obj.gen_setters_eq|]. split; [apply P_gen_c07_obj.gen_setters_eq | apply P_gen_c07_obj.gen_freqs_get_eq]. Qed.
+Theorem C07_smoothing_by_range_is_source : forall (T : Type) (ops : NumOps T) (LOG10 : list T -> list T) (LOGSPACE : T -> T -> Z -> list T)
+    (limits : list T) (n : Z) (st : @Gen_c07_obj.obj T),
+  gen_set_smooth_fa_frequecies_by_range LOG10 LOGSPACE limits n st
+  = match LOG10 limits with
+    | a :: b :: _ => PyRes.PyOk (mk_obj (o_fa_freqs st) (o_fa_spectrum st) (LOGSPACE a b n) (o_smooth_fa_spectrum st) limits false)
+    | _ => PyRes.PyRaise PyRes.IndexError
+    end.
+Proof. intros. apply P_gen_c07_obj.gen_by_range_eq. Qed.
+Theorem C07_object_defaults_are_source :
+  gen_gen_smooth_fa_spectrum_default_smooth_fa_freqs_is_none = true /\ gen_gen_smooth_fa_spectrum_default_band = 40%Z /\
+  gen_generate_smooth_fa_spectrum_default_band = 40%Z.
+Proof. exact P_gen_c07_obj.gen_c07_obj_defaults. Qed.
